@@ -466,7 +466,8 @@ def row_class(case, r):
     Classes repaired in /repo and therefore no longer listed: float_cmp_intlin, float_intlin_single (integer-literal linear
     constraints over float variables were posted as IntLin*), eq_val_outside (x.eq(c) moved the variable outside its bounds),
     int_in_floatlin (FloatLinLe never tightened or checked an integer variable), mixed_strict_int_succ (int variable < float
-    variable used the integer successor)."""
+    variable used the integer successor), strict_int_float_const = int_lt_float_const (int variable < float CONSTANT: x + 1 <= c
+    lost the value floor(c); c < int variable accepted x = c for an integer-valued c)."""
     fl = [v for v in r.coeffs if case.is_float(v)]
     ints = [v for v in r.coeffs if not case.is_float(v)]
     nv = len(r.coeffs)
@@ -478,9 +479,6 @@ def row_class(case, r):
         c = float(r.const / r.coeffs[fl[0]]); st = float(case.step)
         if not (math.ceil(c / st) * st == c and math.floor(c / st) * st == c):
             return "eq_const_offgrid"        # Eq<VarId,Val>: the variable is quantised to the grid, the constant view accepts no tolerance
-    if r.route == "props" and r.text.split()[1] == "lt" and nv == 1 and ints and _plain_var(r.text.split()[2]) and r.text.split()[3].startswith("f:"):
-        if (r.const / r.coeffs[ints[0]]).denominator != 1:
-            return "strict_int_float_const"  # int variable < non-integer float CONSTANT: posted as x + 1 <= c, i.e. x <= floor(c) - 1; the largest value floor(c) is lost
     if r.linear and lowered_float(case, r) and r.rel == "eq" and ints and fl:
         return "floatlineq_mixed"            # FloatLinEq: float variables are quantised with tolerances, integer ones get exact ceil/floor
     return None
